@@ -97,7 +97,16 @@ class Driver:
                 raise DriverDied(err[-2000:])
             if line.startswith(b"Q "):
                 q = json.loads(line[2:])
-                a = self.oracle.answer(q)
+                try:
+                    a = self.oracle.answer(q)
+                except OutOfModel:
+                    try:                   # the model is waiting for an answer it will not get: fresh process
+                        self.p.kill()
+                        self.p.wait(timeout=5)
+                    except Exception:
+                        pass
+                    self._start()
+                    raise
                 trace.append((q, a))
                 self.p.stdin.write(json.dumps(a, ensure_ascii=False).encode("utf-8") + b"\n")
             elif line.startswith(b"R "):
